@@ -38,7 +38,7 @@ EXPLANATION = (
 )
 
 MANIFEST = {
-    "technique": "static analysis: affine/Laurent-polynomial abstract interpretation of the sampler closures; coefficients compared with the documented layout table; clamp and modulus extraction; callable objects followed by the evaluator (constructor state = captured variables, __call__ = closure body); flattened lookup position built from per-axis unclamped indices is definite",
+    "technique": "static analysis: affine/Laurent-polynomial abstract interpretation of the sampler closures; coefficients compared with the documented layout table; clamp and modulus extraction; callable objects followed by the evaluator (constructor state = captured variables, __call__ = closure body); flattened lookup position built from per-axis unclamped indices is definite; the target of the frame transform is a frame instance (sibling agreement; API contract of astropy)",
     "text": "Decides for all six plate-carree closures the exact affine map from (lon, lat) to pixel indices (direction, scale, half-pixel offset, 2*pi periodicity, clamping, axis order) against the documented layouts; a one-pixel shift, wrong wrap, missing clamp or transposed subscript is a coefficient/structure difference.",
     "note": "Trusted: numpy round/astype/clip/mod element-wise semantics; astropy frame transforms. Not decided: ties exactly on cell boundaries (allowed by the property).",
 }
